@@ -30,7 +30,8 @@ def tables : Tables :=
     js := (TypeTables.js.filter (fun r => r.1 != "string")).map (fun r => (idOf r.1, r.2 == "\"\""))
     m := denRows TypeTables.matlab Denote.ofMatlab
     charName := idOf "char"
-    hdrName := idOf "RTMA_MSG_HEADER" }
+    hdrName := idOf "RTMA_MSG_HEADER"
+    maxMsgId := TypeTables.maxMessageTypes }
 
 /-- what `supported_types` itself says a native key is: size and struct format letter -/
 def fmtDen (key : String) : Option Den :=
